@@ -2,6 +2,7 @@
 
 use serde_json::Value;
 
+pub mod alloc;
 pub mod codec;
 pub mod huffman;
 pub mod index;
@@ -14,6 +15,7 @@ pub fn replay(property: &str, engine: &str, case: &Value) -> Result<(), String> 
         "huffman" => huffman::replay(case),
         "codec" => codec::replay(case),
         "laws" => laws::replay(case),
+        "alloc" | "alloc-log" | "alloc-stack" => alloc::replay(engine, case),
         "index" => index::replay(case),
         _ => Err(format!("unknown engine {engine:?} in replay file")),
     }
